@@ -1,8 +1,10 @@
 CONSTANTS
- Topics = {"u","t:u"}
+ Topics = {"u","o-d","t:u"}
  Groups = {"g","g:t"}
  ColonNames = {"t:u","g:t"}
  SlashNames = {}
+ PercentNames = {}
+ DeadVariants = {3}
  MaxParts = 2
  Offs = {0,1}
  Metas = {"","m"}
@@ -21,6 +23,9 @@ CONSTANTS
  DevFetchDefaultZero = FALSE
  DevCommitUnchecked = FALSE
  DevToolWrites = FALSE
+ DevToolReaps = FALSE
+ DevEscapeFastPath = FALSE
+ DevEtcdDeletePrefix = FALSE
 INIT Init
 NEXT NextStore
 INVARIANTS C17_SameObs SameState
